@@ -124,6 +124,8 @@ class Universe:
                 except Exception: pass
             if isinstance(v, (tuple, list, str, bytes, frozenset, set, dict)):
                 ax.append(len_(zv) == len(v))
+        # boxing: the object a boolean expression evaluates to is as truthy as the boolean (a stored flag reads back as what was stored)
+        ax += [truthy(box_bool(z3.BoolVal(True))), z3.Not(truthy(box_bool(z3.BoolVal(False))))]
         ax += self.protocol_axioms()
         return ax
 
